@@ -86,6 +86,33 @@ func anyKindTest(info *types.Info, e ast.Expr) bool {
 	return found
 }
 
+// negKindTest: falling through `if cond { leave }` establishes the token kind: cond is `x.Kind != K`, `!peek(…)`, or a
+// disjunction with such a disjunct (a conjunction does not: its negation leaves the kind open).
+func negKindTest(info *types.Info, e ast.Expr) bool {
+	switch x := ast.Unparen(e).(type) {
+	case *ast.BinaryExpr:
+		switch x.Op {
+		case token.NEQ:
+			for _, side := range []ast.Expr{x.X, x.Y} {
+				if se, ok := ast.Unparen(side).(*ast.SelectorExpr); ok && se.Sel.Name == "Kind" {
+					return true
+				}
+			}
+		case token.LOR:
+			return negKindTest(info, x.X) || negKindTest(info, x.Y)
+		}
+	case *ast.UnaryExpr:
+		if x.Op == token.NOT {
+			if call, ok := ast.Unparen(x.X).(*ast.CallExpr); ok {
+				if f := core.CalleeObj(info, call); f != nil && (core.N(f) == "peek" || core.N(f) == "peekDescription") {
+					return true
+				}
+			}
+		}
+	}
+	return false
+}
+
 func isTokenValue(info *types.Info, e ast.Expr) bool {
 	se, ok := ast.Unparen(e).(*ast.SelectorExpr)
 	if !ok || se.Sel.Name != "Value" {
@@ -286,6 +313,26 @@ func kindKnownAt(info *types.Info, call *ast.CallExpr, stack []ast.Node, fd *ast
 		case *ast.ReturnStmt:
 			// `return token, advance(parser)` inside `if token.Kind == kind {`
 			continue
+		case *ast.BlockStmt:
+			// guard clause: an earlier statement of this block tests the kind and leaves on the other outcome
+			// (`if token.Kind != kind { return … }` followed by the consuming call)
+			for _, st := range s.List {
+				if st.End() > call.Pos() {
+					break
+				}
+				ifs, ok := st.(*ast.IfStmt)
+				if !ok || ifs.Else != nil || !negKindTest(info, ifs.Cond) || len(ifs.Body.List) == 0 {
+					continue
+				}
+				switch last := ifs.Body.List[len(ifs.Body.List)-1].(type) {
+				case *ast.ReturnStmt:
+					return true
+				case *ast.BranchStmt:
+					if last.Tok == token.CONTINUE || last.Tok == token.BREAK {
+						return true
+					}
+				}
+			}
 		}
 	}
 	return false
